@@ -232,6 +232,28 @@ Proof.
   rewrite !fld_merge by reflexivity. reflexivity.
 Qed.
 
+(* the jitter in force for a rate stage: the stage's own if present (even 0), else the default's *)
+Lemma parse_stage_jitter s d dur mode rs :
+  parse_stage s d dur mode = Ok rs -> rs_users rs = 0 ->
+  rs_jitter rs = match sc_jitter s with
+                 | Some j => j
+                 | None => match sc_jitter d with Some j => j | None => 0 end
+                 end.
+Proof.
+  unfold parse_stage. intros H Hu.
+  assert (J : match fld sc_jitter s d with Some j => j | None => 0 end =
+              match sc_jitter s with Some j => j | None => match sc_jitter d with Some j => j | None => 0 end end).
+  { unfold fld, orelse. destruct (sc_jitter s); reflexivity. }
+  rewrite <- J. clear J.
+  repeat match type of H with
+  | (if ?c then _ else _) = _ => destruct c eqn:?
+  | need ?o _ = _ => destruct o; cbn [need] in H; [|discriminate]
+  | res_bind ?r _ = _ => destruct r; cbn [res_bind] in H; [|discriminate|discriminate]
+  | Ok _ = Ok _ => injection H as <-; cbn [rs_jitter rs_users] in *; try reflexivity; try lia
+  | Err = Ok _ => discriminate
+  end.
+Qed.
+
 (* ---------------------------------------------------------------- no crash *)
 
 Lemma with_distribution_no_crash dist interval d total : with_distribution dist interval d total <> Crash.
